@@ -2,6 +2,7 @@ package sim
 
 import (
 	"fmt"
+	"github.com/ory/keto/internal/check/checkgroup"
 
 	"github.com/ory/keto/ketoapi"
 )
@@ -30,13 +31,22 @@ func runC01(env *Env, rc *RunCtx) {
 			return &NSDef{Name: name, Rels: []*RelDef{{Name: "viewers", Types: user}, {Name: "view", Rewrite: &Expr{Kind: ExIncludes, Rel: "viewers"}}}}
 		}
 		trav := &Expr{Kind: ExTraverse, Rel: "parents", Computed: "view", ViaPermits: true}
+		// the child's permissions are called like the parents' ("view") or not ("read")
+		pv, ph := "view", "hidden"
+		if t.Bool(1, 2) {
+			pv, ph = "read", "concealed"
+		}
 		doc := &NSDef{Name: "Doc", Rels: []*RelDef{{Name: "parents", Types: []TypeRef{{NS: "Folder"}, {NS: "Project"}}},
-			{Name: "view", Rewrite: trav}, {Name: "hidden", Rewrite: &Expr{Kind: ExNot, Children: []*Expr{{Kind: ExTraverse, Rel: "parents", Computed: "view", ViaPermits: true}}}}}}
+			{Name: pv, Rewrite: trav}, {Name: ph, Rewrite: &Expr{Kind: ExNot, Children: []*Expr{{Kind: ExTraverse, Rel: "parents", Computed: "view", ViaPermits: true}}}}}}
 		enc := c.Cfg.Enc
 		if enc == EncNone {
 			enc = EncOPL
 		}
-		c.Cfg = &Config{Enc: enc, Strict: c.Cfg.Strict, NS: []*NSDef{{Name: "U"}, kind("Folder"), kind("Project"), doc}}
+		strict := c.Cfg.Strict
+		if enc == EncOPL || enc == EncOPLMin {
+			strict = t.Bool(1, 2)
+		}
+		c.Cfg = &Config{Enc: enc, Strict: strict, NS: []*NSDef{{Name: "U"}, kind("Folder"), kind("Project"), doc}}
 		names := []string{"alpha", "beta"}
 		c.Tuples = nil
 		for _, d := range []string{"d0", "d1"} {
@@ -48,7 +58,12 @@ func runC01(env *Env, rc *RunCtx) {
 		for i := 0; i < t.Range(1, 3); i++ {
 			c.Tuples = append(c.Tuples, Tuple{NS: []string{"Folder", "Project"}[t.Choose(2)], Obj: names[t.Choose(2)], Rel: "viewers", Sub: Subject{ID: fmt.Sprintf("u%d", t.Choose(2))}})
 		}
-		c.Query = Tuple{NS: "Doc", Obj: []string{"d0", "d1"}[t.Choose(2)], Rel: []string{"view", "hidden"}[t.Choose(2)], Sub: Subject{ID: fmt.Sprintf("u%d", t.Choose(2))}}
+		if t.Bool(1, 2) {
+			// a relationship written directly on a PERMISSION of a parent (strict mode
+			// ignores it, default mode honours it)
+			c.Tuples = append(c.Tuples, Tuple{NS: []string{"Folder", "Project"}[t.Choose(2)], Obj: names[t.Choose(2)], Rel: "view", Sub: Subject{ID: fmt.Sprintf("u%d", t.Choose(2))}})
+		}
+		c.Query = Tuple{NS: "Doc", Obj: []string{"d0", "d1"}[t.Choose(2)], Rel: []string{pv, ph}[t.Choose(2)], Sub: Subject{ID: fmt.Sprintf("u%d", t.Choose(2))}}
 		c.Conforming = true
 		rc.Count("probe_same_object_name_in_two_namespaces", 1)
 	}
@@ -173,6 +188,24 @@ func runC01(env *Env, rc *RunCtx) {
 				rc.Violate("engine", site, fmt.Sprintf("engine=%s reference allowed=%v", o.Membership, ref.Allowed), w(), e, et)
 				return
 			}
+		}
+	}
+	// Once more without the storage seam: the registry's own engine on the real
+	// persister and traverser (whatever optional fast paths they offer are taken
+	// here, and only here - the seam's wrappers hide them). The schedule of this
+	// execution is the Go runtime's, not the tape's; the answer must be the
+	// reference's all the same.
+	if !rc.SkipExec(900) {
+		res := env.Reg.PermissionEngine().CheckRelationTuple(env.Ctx, q, 0)
+		rc.Rec.Execs++
+		rc.Count("unwrapped_engine_checks", 1)
+		if res.Err == nil && (res.Membership == checkgroup.IsMember) != ref.Allowed {
+			site := "denied-but-member"
+			if res.Membership == checkgroup.IsMember {
+				site = "allowed-but-not-member"
+			}
+			rc.Violate("engine-without-seam", site, fmt.Sprintf("the registry's own engine (no storage seam) says %s, reference allowed=%v", res.Membership, ref.Allowed), desc(nil), 900, nil)
+			return
 		}
 	}
 	if rc.WantSample {
